@@ -16,6 +16,7 @@ independent axes.
 from operator import xor
 
 import numpy as np
+from pb_bss import _verif
 from dataclasses import dataclass
 from pb_bss.distribution import (
     ComplexAngularCentralGaussian,
@@ -198,6 +199,7 @@ class VMFCACGMMTrainer:
                 spatial_weight=spatial_weight,
                 spectral_weight=spectral_weight
             )
+            _verif.trace(self, iteration, model, affiliation, quadratic_form)
 
         return model
 
